@@ -428,7 +428,11 @@ func (r *replayer) replayOne(v *gosym.Violation) {
 		v.ReplayOut = err.Error()
 		return
 	}
-	cmd := exec.Command(bin, "-test.run", "^TestVerifReplay$", "-test.timeout", "60s", "-test.v")
+	limit := 90 * time.Second
+	if v.Kind == "bound" || v.Kind == "deadlock" {
+		limit = 20 * time.Second // a hang is confirmed by a wall-clock timeout on a tiny input
+	}
+	cmd := exec.Command(bin, "-test.run", "^TestVerifReplay$", "-test.timeout", "300s", "-test.v")
 	cmd.Dir = filepath.Join(repoDir, pkgRel)
 	cmd.Env = append(os.Environ(), "VERIF_REPLAY="+v.ReplayFile, "VERIF_HARNESS="+v.Harness)
 	done := make(chan struct{})
@@ -436,7 +440,7 @@ func (r *replayer) replayOne(v *gosym.Violation) {
 	go func() { out, _ = cmd.CombinedOutput(); close(done) }()
 	select {
 	case <-done:
-	case <-time.After(90 * time.Second):
+	case <-time.After(limit):
 		if cmd.Process != nil {
 			cmd.Process.Kill()
 		}
